@@ -39,6 +39,16 @@ package freelist
 //@   witness [added] wr := old(len(t.readonlyTXIDs))
 //@   modifies t.readonlyTXIDs, allelems("common.Txid")
 
+//@ func (*shared).RemoveReadonlyTXID
+//@   props C09 C10 C02
+//@   ensures [len] len(t.readonlyTXIDs) == old(len(t.readonlyTXIDs)) - (old(isreader(t, tid)) ? 1 : 0)
+//@   ensures [kept] forall r common.Txid :: r != tid && old(isreader(t, r)) ==> isreader(t, r)
+//@   ensures [nonew] forall r common.Txid :: isreader(t, r) ==> old(isreader(t, r))
+//@   modifies t.readonlyTXIDs, elems(t.readonlyTXIDs)
+//@   loop 0 invariant [notfound] forall j int :: 0 <= j && j <= rangeindex ==> t.readonlyTXIDs[j] != tid
+//@   loop 0 invariant [same] len(t.readonlyTXIDs) == old(len(t.readonlyTXIDs)) && arrayof(t.readonlyTXIDs) == old(arrayof(t.readonlyTXIDs)) && offof(t.readonlyTXIDs) == old(offof(t.readonlyTXIDs))
+//@   loop 0 invariant [sameelems] forall j int :: 0 <= j && j < len(t.readonlyTXIDs) ==> t.readonlyTXIDs[j] == old(t.readonlyTXIDs[j])
+
 //@ func (*shared).Free
 //@   props C09 C06 C07 C01
 //@   requires t.pending != nil && t.cache != nil && t.allocs != nil
